@@ -50,6 +50,13 @@ def obligations(ctx):
                           unwindset=",".join("%s.%d:%d" % (f, i, 4) for f, n in (("znx_rotate_i64", 4), ("znx_rotate_inplace_i64", 2)) for i in range(n)),
                           desc="3 public calls on symbolic 3-limb vectors with symbolic p: the result limbs are the balanced digits of (x+y)*X^p computed in 128-bit arithmetic, "
                                "including the carries of big limbs that have no counterpart in a shorter output"))
+    # integer pipeline starting with an in-place resize of a vector inside its own buffer
+    for keep in (1, 2, 3):
+        for avx in (0, 1):
+            obs.append(Ob("int/inplace-copy-negate-add-normalize/N=2/k=%d/keep=%d/avx=%d" % ((16, 45)[keep % 2], keep, avx), "pipe.c", "h_pipe_copy",
+                          {"NN": 2, "MM": 1, "K": (16, 45)[keep % 2], "AVX": avx, "KEEP": keep}, ag.LIBS, unwind=80, inc=[t], family="integer pipeline with in-place steps", timeout=900,
+                          desc="vec_znx_copy with res == a (keep the first limbs, zero-extend to 3), in-place negate, add, normalize on symbolic 3-limb vectors: "
+                               "the digits of -trunc(v) + y computed in 128-bit arithmetic"))
     obs += ntt_module_obs(ctx, t)
     # FFT64 pipelines of 3-4 public calls (shared analysis with C01/C02), shapes different from those checks
     for nn in (4, 8):
